@@ -25,7 +25,10 @@ def build(lines, final_newline=True):
     """lines: list of ('lit', s) | atom piece; joined with LF"""
     pieces = []
     for i, l in enumerate(lines):
-        pieces.append(l)
+        if isinstance(l, list):
+            pieces.extend(l)
+        else:
+            pieces.append(l)
         if i < len(lines) - 1 or final_newline:
             pieces.append(("lit", "\n"))
     return symstr.mk(pieces)
@@ -65,7 +68,20 @@ def run(tier):
         return [show_res(I, s, v) if ctl == OK else ("ctl", ctl, str(v)[:60]) for ctl, v, s in res], I
 
     n = 0
-    payload_shapes = [[], ["p"], ["p", "p"], ["p", "", "p"], ["", "p"], ["p", ""], ["p", "p", "p"]]
+    payload_shapes = [[], ["p"], ["p", "p"], ["p", "", "p"], ["", "p"], ["p", ""], ["p", "p", "p"],
+                      ["pw"], ["ws", "p"], ["mk", "p"], ["p", "me"], ["mb"], ["p", "pw", "ws"]]
+
+    def payload_piece(kind, i):
+        # p: opaque line; '': empty; pw: line with trailing blanks; ws: blank-only line; mk/me/mb: marker look-alikes (indented)
+        if kind == "p":
+            return [line_atom("pay%d" % i)]
+        if kind == "":
+            return [("lit", "")]
+        if kind == "pw":
+            return [line_atom("pay%d" % i), ("lit", " \t")]
+        if kind == "ws":
+            return [("lit", "  ")]
+        return [("lit", " " + {"mk": BSIG, "me": ESIG, "mb": BEGIN}[kind])]
     for nh in (0, 1, 2):
         for pshape in payload_shapes:
             for ns in (1, 2):
@@ -78,7 +94,7 @@ def run(tier):
                 phases.append("headers-end")
                 pl = []
                 for i, p in enumerate(pshape):
-                    pc = line_atom("pay%d" % i) if p else ("lit", "")
+                    pc = payload_piece(p, i)
                     lines.append(pc)
                     pl.append(pc)
                     phases.append("payload")
@@ -91,9 +107,10 @@ def run(tier):
                     phases.append("signature")
                 lines.append(("lit", ESIG))
                 phases.append("signature-end")
-                want_payload = symstr.show(symstr.mk([x for p in pl for x in (p, ("lit", "\n"))]))
+                want_payload = symstr.show(symstr.mk([x for p in pl for x in (list(p) + [("lit", "\n")])]))
                 want_sig = symstr.show(symstr.mk(sl))
-                label = "headers=%d payload=%s signature=%d" % (nh, ["line" if p else "empty" for p in pshape], ns)
+                names = {"p": "line", "": "empty", "pw": "line+trailing-blanks", "ws": "blank-only", "mk": "indented BEGIN-SIGNATURE look-alike", "me": "indented END-SIGNATURE look-alike", "mb": "indented BEGIN-MESSAGE look-alike"}
+                label = "headers=%d payload=%s signature=%d" % (nh, [names[p] for p in pshape], ns)
                 for final_nl in (True, False):
                     got, I = call(build(lines, final_nl))
                     n += 1
@@ -119,7 +136,7 @@ def run(tier):
         got, I = call(inp)
         n += 1
         C.ob("C19/passthrough", name, got == [("ok", symstr.show(inp), None)], "yields %s, expected the input unchanged and no signature" % got, f["sp"])
-    C.floor("C19/evaluations", n, 438, "symbolic messages evaluated")
+    C.floor("C19/evaluations", n, 800, "symbolic messages evaluated")
     C.assumptions += ["payload/header/signature lines are opaque non-empty atoms without newline that differ from the marker lines (no dash-escaping needed)",
                       "bounded shapes: <= 2 header lines, <= 3 payload lines, <= 2 signature lines; the per-phase loops are uniform"]
     return C.finish("The function body is interpreted on symbolic messages (literal marker lines, opaque other lines) for all small phase lengths, every truncation point and trailing junk; "
